@@ -520,6 +520,12 @@ func (m *Model) ExpectSingle(f *MFn, k MKey) *Producer {
 	return nil
 }
 
+// NoSource: a required single leaf that resolution cannot satisfy: nothing is
+// visible for it, or only a decorator (a decorator is not a constructor).
+func (m *Model) NoSource(f *MFn, k MKey) bool {
+	return m.ExpectSingle(f, k) == nil || !m.AnyProvider(f.View, k)
+}
+
 // ExpectGroup: either the nearest decorator of the group, or the list of
 // visible feeders.
 func (m *Model) ExpectGroup(f *MFn, k MKey) (deco *MFn, feeders []*MFn) {
@@ -547,6 +553,11 @@ func (m *Model) Targets(f *MFn, l MLeaf) []*MFn {
 		return m.Feeders(f.View, l.Key)
 	}
 	if d := m.NearestDeco(f.View, l.Key, self); d != nil {
+		if !l.Opt && !m.AnyProvider(f.View, l.Key) {
+			// a required dependency on a key that is decorated but not
+			// provided is missing: resolution never reaches the decorator
+			return nil
+		}
 		return []*MFn{d}
 	}
 	if p := m.NearestProvider(f.View, l.Key); p != nil {
@@ -950,9 +961,9 @@ func (m *Model) ZonesOf(f *MFn) Zones {
 					// A decorator is not a constructor: a *required*
 					// dependency on the key is simply missing (C04) as
 					// long as the decorator cannot have produced a value
-					// - it has not run, and nothing in this resolution can
-					// make it run (an optional request for the key, or a
-					// request for another key of a multi-key decorator).
+					// - it has not run, and nothing can make it run (an
+					// optional request for the key, or a request from a
+					// place where one of its keys does have a constructor).
 					// Everything else about such keys is unspecified.
 					if l.Opt || d.Execs > 0 || m.decoHasProvidedKey(d) {
 						z.DecoNoProvider = true
@@ -973,13 +984,11 @@ func (m *Model) ZonesOf(f *MFn) Zones {
 	return z
 }
 
-// decoHasProvidedKey: some key of decorator d has a constructor somewhere.
+// decoHasProvidedKey: some key of decorator d has a constructor somewhere in
+// the tree (a consumer that sees that constructor makes the decorator run,
+// and its outputs then exist in the decorator's scope).
 func (m *Model) decoHasProvidedKey(d *MFn) bool {
-	ks := d.Keys()
-	if len(ks) <= 1 {
-		return false
-	}
-	for _, k := range ks {
+	for _, k := range d.Keys() {
 		for _, c := range m.AllCtors() {
 			if k.Group == "" && c.SlotFor(k) >= 0 {
 				return true
